@@ -160,7 +160,16 @@ pub fn check_reqs(rc: &ReqCase, cc: &mut CaseCtx) -> CheckResult {
         cc.class("unsignable");
         return Ok(());
     };
-    let case = Case { req: signed.req, cfg: p.cfg.clone(), prov: p.provider() };
+    let mut case = Case { req: signed.req, cfg: p.cfg.clone(), prov: p.provider() };
+    if !rc.remove_from_request && !dropped.is_empty() && rc.drop[0] % 3 == 0 {
+        // the client nominates the headers it left unsigned as hop-by-hop: they are still headers of this request
+        let names: Vec<&str> = dropped.iter().map(|s| s.as_str()).filter(|d| *d != "host").collect();
+        if !names.is_empty() {
+            let v = format!("{}{}", if rc.drop[0] % 2 == 0 { "close, " } else { "" }, names.join(", "));
+            case.req.headers.push((["Connection", "connection", "Proxy-Connection", "Keep-Alive"][rc.drop[0] as usize / 3 % 4].into(), B::from(v)));
+            cc.class("unsigned-headers-nominated-in-connection");
+        }
+    }
     let a = analyze(&case);
     let o = exec::run(&case);
     if let exec::Res::Unrepresentable(_) = o.res {
